@@ -95,9 +95,11 @@ def relations(cases, impl, model):
     REL_STATS.clear(); REL_STATS.update(renamed_runs_compared=0)
     base = {}
     for (case, tag), (iout, ires) in zip(cases, impl):
+        if "-" not in tag: continue          # a replayed single case has no partner
         kind, k = tag.rsplit("-", 1)
         if kind == "original": base[k] = (case, view(iout, ires))
     for (case, tag), (iout, ires) in zip(cases, impl):
+        if "-" not in tag: continue          # a replayed single case has no partner
         kind, k = tag.rsplit("-", 1)
         if kind == "original" or k not in base: continue
         REL_STATS["renamed_runs_compared"] += 1
